@@ -9,7 +9,7 @@ import z3
 
 from symex import arrays, core, fakefs, larr, np2env, sglx
 from symex.core import SInt, all_, and_, implies, not_, or_
-from symex.fakefs import FakePath, InjectedFault
+from symex.fakefs import FakePath, InjectedFault, InjectedInterrupt
 from symex.harness import Case, Twin
 from symex.larr import LArr
 from symex.np2env import Cbin
@@ -106,12 +106,14 @@ def case_compress(ctx, fault):
         F.add(BASE + ".cbin_tmp", True, 3, Cbin(raw, False, (NS, NC)))
     sr = ctx.call("open", spikeglx.Reader, FakePath(BASE + ".bin"))
     n0 = F.nops
+    if fault is not None and bool(ctx.bool("interrupted_by_a_signal")):
+        F.fault_exc = InjectedInterrupt       # Ctrl-C / SystemExit instead of an I/O error
     F.fault_at = None if fault is None else n0 + fault
     raised = None
     out = None
     try:
         out = sr.compress_file(keep_original=keep)
-    except InjectedFault as e:
+    except (InjectedFault, InjectedInterrupt) as e:
         raised = e
     except Exception as e:  # noqa
         ctx.oblige("compress_no_unexpected_exception", False, detail={"exception": repr(e)})
@@ -148,11 +150,13 @@ def case_decompress_scratch(ctx, fault, scratch):
         F.add(final + "_temp", True, 5, {"partial_of": None})
     sr = ctx.call("open", spikeglx.Reader, FakePath(BASE + ".cbin"))
     n0 = F.nops
+    if fault is not None and bool(ctx.bool("interrupted_by_a_signal")):
+        F.fault_exc = InjectedInterrupt       # Ctrl-C / SystemExit instead of an I/O error
     F.fault_at = None if fault is None else n0 + fault
     raised = None
     try:
         out = sr.decompress_to_scratch(scratch_dir=scratch_dir)
-    except InjectedFault as e:
+    except (InjectedFault, InjectedInterrupt) as e:
         raised = e
     except Exception as e:  # noqa
         ctx.oblige("scratch_no_unexpected_exception", False, detail={"exception": repr(e)})
@@ -182,18 +186,22 @@ def case_decompress_inplace(ctx, fault):
     F, raw = _install(False, True)
     sr = ctx.call("open", spikeglx.Reader, FakePath(BASE + ".cbin"))
     n0 = F.nops
+    if fault is not None and bool(ctx.bool("interrupted_by_a_signal")):
+        F.fault_exc = InjectedInterrupt       # Ctrl-C / SystemExit instead of an I/O error
     F.fault_at = None if fault is None else n0 + fault
     raised = None
+    custom = bool(ctx.bool("output_path_given"))        # decompress_file(out=<another name>) instead of the default <name>.bin
+    OUT = "/d/elsewhere.imec0.ap.bin" if custom else BASE + ".bin"
     try:
-        out = sr.decompress_file(keep_original=keep)
-    except InjectedFault as e:
+        out = sr.decompress_file(keep_original=keep, out=FakePath(OUT)) if custom else sr.decompress_file(keep_original=keep)
+    except (InjectedFault, InjectedInterrupt) as e:
         raised = e
     except Exception as e:  # noqa
         ctx.oblige("decompress_no_unexpected_exception", False, detail={"exception": repr(e)})
         return
     F.fault_at = None
     src = F.get(BASE + ".cbin")
-    dst = F.get(BASE + ".bin")
+    dst = F.get(OUT)
     complete = dst is not None and bool(dst.exists) and isinstance(dst.content, LArr)
     # the source (cbin + ch) may only be gone once the replacement is complete
     src_gone = (not bool(src.exists)) or (not bool(F.get(BASE + ".ch").exists))
@@ -201,9 +209,10 @@ def case_decompress_inplace(ctx, fault):
     if keep:
         ctx.oblige("compressed_source_kept_when_asked", bool(src.exists) and bool(F.get(BASE + ".ch").exists), detail={"fault": fault})
     if raised is None:
-        ctx.oblige("decompress_returns_complete_bin", str(out) == BASE + ".bin" and complete)
+        ctx.oblige("decompress_returns_complete_bin", str(out) == OUT and complete, detail={"returned": str(out), "asked": OUT})
         if not keep:
-            ctx.oblige("reader_points_to_bin", str(sr.file_bin) == BASE + ".bin")
+            ctx.oblige("reader_points_to_bin", str(sr.file_bin) == OUT, detail={"file_bin": str(sr.file_bin), "asked": OUT})
+        if not keep and not custom:
             # the object modified in place keeps working: re-opened, it reads the same recording
             ctx.call("reopen_same_object", sr.open)
             ctx.oblige("same_object_reopened_has_the_recordings_shape", tuple(sr.shape) == (NS, NC), detail={"shape": str(sr.shape)})
@@ -227,7 +236,7 @@ def case_decompress_inplace_retry(ctx, fault):
     raised = None
     try:
         sr.decompress_file(keep_original=keep)
-    except InjectedFault as e:
+    except (InjectedFault, InjectedInterrupt) as e:
         raised = e
     except Exception as e:  # noqa
         ctx.oblige("decompress_no_unexpected_exception", False, detail={"exception": repr(e)})
@@ -302,8 +311,8 @@ def mk_bin():
     (d / 'x.imec0.ap.meta').write_text(txt); data.tofile(d / 'x.imec0.ap.bin')
 def mk_cbin():
     mk_bin(); sr = spikeglx.Reader(d / 'x.imec0.ap.bin'); sr.compress_file(keep_original=False); sr.close()
-class Boom(OSError): pass
-'''
+class Boom(BASE_EXC): pass
+'''.replace("BASE_EXC", "BaseException" if m.get("interrupted_by_a_signal") else "OSError")
     if case == "entry_points":
         return common + f"""
 be, ce = {bool(m.get('bin_exists'))}, {bool(m.get('cbin_exists'))}
@@ -443,19 +452,22 @@ def failing(self, out, overwrite=False):
     raise Boom('injected')
 if fault is not None and fault <= 2: M.Reader.tofile = failing
 raised = None
+custom = {bool(m.get('output_path_given'))}
+b = d / ('elsewhere.imec0.ap.bin' if custom else 'x.imec0.ap.bin')
 try:
-    out = sr.decompress_file(keep_original=keep)
+    out = sr.decompress_file(keep_original=keep, out=b) if custom else sr.decompress_file(keep_original=keep)
 except Boom as e:
     raised = e
 finally:
     M.Reader.tofile = orig
-b = d / 'x.imec0.ap.bin'
+if raised is None and pathlib.Path(out) != b: reproduced(f'decompress_file returned {{out}} although the output was written to {{b}}')
+if raised is None and not keep and pathlib.Path(sr.file_bin) != b: reproduced(f'after the in-place decompression the reader points to {{sr.file_bin}}, the data are in {{b}} (exists: {{pathlib.Path(sr.file_bin).exists()}})')
 complete = b.exists() and b.stat().st_size == data.nbytes and np.array_equal(np.fromfile(b, dtype=np.int16).reshape(ns, nc), data)
 gone = not (d / 'x.imec0.ap.cbin').exists() or not (d / 'x.imec0.ap.ch').exists()
 bad = []
 if gone and not complete: bad.append('compressed source removed before the replacement was complete')
 if raised is None and not complete: bad.append('no complete bin after normal return')
-if raised is None and not keep:
+if raised is None and not keep and not custom:
     sr.open()
     fresh = spikeglx.Reader(b)
     if sr.shape != (ns, nc): bad.append(f'the reader object decompressed in place re-opens with shape {{sr.shape}} instead of {{(ns, nc)}}')
